@@ -17,15 +17,32 @@ EXTENDS Pipeline, Json
 
 Trace == ndJsonDeserialize("trace.ndjson")
 
-VARIABLE l
-tvars == <<vars, l>>
+VARIABLES l,     \* next trace line
+          wire   \* [Reqs -> answers the server has produced and the client has not noted yet]
+tvars == <<vars, l, wire>>
 
 IsEvent(e) == l <= Len(Trace) /\ Trace[l].e = e /\ l' = l + 1
-Quiet      == \A r \in Reqs : pc[r] \in {"idle", "done"}
+Quiet      == \A r \in Reqs : pc[r] \in {"idle", "done"} /\ wire[r] = <<>>
+
+\* Over a real transport the answers ("resp") are noted by the CLIENT when
+\* they arrive, i.e. some time after the server produced them, while the
+\* server goes on (next response round of a stream, recover function ...):
+\* the server-side production is a silent step into wire[r], the client's
+\* line takes the head of wire[r].  In direct mode the driver is the
+\* transport and notes the answer in place.
+Remote == cfg.tr # "direct"
+
+\* status class of an HTTP answer, as far as the property cares (the exact
+\* code is implementation level: Server.ServeHTTP answers a recovered panic
+\* with 422; the event-stream and multipart/mixed transports have deferred a
+\* Flush, which commits 200 before that): a request/response transport must
+\* not answer a request whose gate panicked with a success status
+StatusOK(tr, fate, st) == (fate = "panicked" /\ tr \in {"post", "get", "form"}) => st \in {"4xx", "5xx"}
 
 TraceInit ==
   /\ l = 1 /\ TLCSet(1, 1)
-  /\ cfg   = [exts |-> <<>>, ck |-> "none", cn |-> 0, sugg |-> FALSE]
+  /\ wire  = [r \in Reqs |-> <<>>]
+  /\ cfg   = [exts |-> <<>>, ck |-> "none", cn |-> 0, sugg |-> FALSE, tr |-> "direct"]
   /\ arrs  = [NoArrs EXCEPT ![InitArr] = <<"FOCT">>]
   /\ hdr   = [a |-> InitArr, n |-> 1]
   /\ cache = <<>>
@@ -39,24 +56,47 @@ TraceInit ==
 TScenario ==
   /\ IsEvent("Scenario") /\ Quiet
   /\ LET t == Trace[l]
-     IN  Load([exts |-> t.exts, ck |-> t.ck, cn |-> t.cn, sugg |-> t.sugg], t.rules0)
+     IN  Load([exts |-> t.exts, ck |-> t.ck, cn |-> t.cn, sugg |-> t.sugg, tr |-> t.tr], t.rules0)
+  /\ UNCHANGED wire
 
 TReq ==
   /\ IsEvent("Req")
   /\ LET t == Trace[l]
      IN  /\ t.r \in Reqs
-         /\ Start(t.r, [q |-> t.q, cls |-> t.cls, opsel |-> t.opsel, vcls |-> t.vars, rej |-> t.rej,
-                        rounds |-> t.rounds, roots |-> t.roots])
+         /\ wire[t.r] = <<>>
+         /\ Start(t.r, [q |-> t.q, cls |-> t.cls, opsel |-> t.opsel, vcls |-> t.vars, opt |-> t.opt,
+                        gates |-> t.gates, rounds |-> t.rounds, roots |-> t.roots])
+  /\ UNCHANGED wire
 
 THook ==
   /\ IsEvent("H")
   /\ LET t == Trace[l]
      IN  /\ t.k \notin {"cget", "cadd"}
+         /\ ~(t.k = "resp" /\ Remote)
          /\ t.r \in Reqs
          /\ pc[t.r] \in LocalPC
          /\ todo[t.r] # <<>>
          /\ todo[t.r][1] = Ev(t.k, t.d, t.i, t.f)
          /\ Emit(t.r)
+  /\ UNCHANGED wire
+
+\* the server produces an answer (silent) ...
+TProduce ==
+  /\ l' = l /\ Remote
+  /\ \E r \in Reqs :
+       /\ pc[r] \in LocalPC /\ todo[r] # <<>> /\ todo[r][1].k = "resp"
+       /\ wire' = [wire EXCEPT ![r] = Append(@, todo[r][1])]
+       /\ Emit(r)
+\* ... the client notes it (f: status class of the HTTP answer)
+TObserve ==
+  /\ IsEvent("H") /\ Remote
+  /\ LET t == Trace[l]
+     IN  /\ t.k = "resp" /\ t.r \in Reqs
+         /\ wire[t.r] # <<>>
+         /\ Head(wire[t.r]).d = t.d
+         /\ StatusOK(cfg.tr, Fate(cfg.exts, cfg.tr, rq[t.r]), t.f)
+         /\ wire' = [wire EXCEPT ![t.r] = Tail(@)]
+  /\ UNCHANGED vars
 
 TCGet ==
   /\ IsEvent("H")
@@ -67,6 +107,7 @@ TCGet ==
          /\ rq[t.r].q = t.f
          /\ (t.d = "hit") = CacheHit(t.f)
          /\ CacheGet(t.r)
+  /\ UNCHANGED wire
 
 TCAdd ==
   /\ IsEvent("H")
@@ -76,6 +117,7 @@ TCAdd ==
          /\ pc[t.r] = "cadd"
          /\ rq[t.r].q = t.f
          /\ CacheAdd(t.r)
+  /\ UNCHANGED wire
 
 \* a request whose validation panicked (nil RuleFunc; only possible with the
 \* per-request swap): the recover hook is observed, then the transport-level
@@ -84,20 +126,20 @@ TCAdd ==
 TRecover ==
   /\ IsEvent("H")
   /\ LET t == Trace[l] IN t.k = "recover" /\ t.r \in Reqs /\ pc[t.r] = "panicked"
-  /\ UNCHANGED vars
+  /\ UNCHANGED <<vars, wire>>
 TPanicResp ==
   /\ IsEvent("H")
   /\ LET t == Trace[l]
      IN  /\ t.k = "resp" /\ t.d \in {"panic", "errors"} /\ t.r \in Reqs /\ pc[t.r] = "panicked"
          /\ pc' = [pc EXCEPT ![t.r] = "done"]
-  /\ UNCHANGED <<cfg, hdr, arrs, cache, rq, todo, log, tmp, glog>>
+  /\ UNCHANGED <<cfg, hdr, arrs, cache, rq, todo, log, tmp, glog, wire>>
 
 \* steps of the code that are not logged
-TSilent == l' = l /\ \E r \in Reqs : Validate(r) \/ RuleStep(r)
+TSilent == l' = l /\ UNCHANGED wire /\ \E r \in Reqs : Validate(r) \/ RuleStep(r)
 
-TEnd == IsEvent("End") /\ Quiet /\ UNCHANGED vars
+TEnd == IsEvent("End") /\ Quiet /\ UNCHANGED <<vars, wire>>
 
-TraceNext == TScenario \/ TReq \/ THook \/ TCGet \/ TCAdd \/ TRecover \/ TPanicResp \/ TSilent \/ TEnd
+TraceNext == TScenario \/ TReq \/ THook \/ TProduce \/ TObserve \/ TCGet \/ TCAdd \/ TRecover \/ TPanicResp \/ TSilent \/ TEnd
 
 TraceSpec == TraceInit /\ [][TraceNext]_tvars
 
